@@ -63,6 +63,28 @@ def asset_table(op):
                 badlabel=bad_label)
 
 
+def declared_window(a, timegrid):
+    """[first step, last step + 1) of the window the asset was declared with (a scaled asset dispatches what its base asset dispatches),
+    from the declaration and the grid points only"""
+    import pandas as pd
+    src = getattr(a, 'base_asset', None) or a
+
+    def ts(x, default):
+        if x is None:
+            return default
+        t = pd.Timestamp(x)
+        tz = timegrid.timepoints.tz
+        if tz is not None and t.tzinfo is None:
+            t = t.tz_localize(tz)
+        elif tz is None and t.tzinfo is not None:
+            t = t.tz_localize(None)
+        return t
+    pts = timegrid.timepoints
+    s0, e0 = ts(src.start, pts[0]), ts(src.end, None)
+    I = [i for i, p_ in enumerate(pts) if p_ >= s0 and (e0 is None or p_ < e0)]
+    return [min(I), max(I) + 1] if I else [0, 0]
+
+
 def assembly_trace(portfolio, prices, timegrid, op, fix=None, global_only=False, T=None, nodal_step_offset=0):
     """trace dict for Trace_EAOAssembly from a portfolio and its assembled problem `op`
     (global_only: only the problem's own tables, e.g. for one interval problem of a split set-up with T steps)"""
@@ -73,6 +95,7 @@ def assembly_trace(portfolio, prices, timegrid, op, fix=None, global_only=False,
             aop = a.setup_optim_problem(prices, timegrid)
         tabs.append(asset_table(aop))
         tabs[-1]['nodes'] = [str(x) for x in a.node_names]      # the nodes the asset was DECLARED with (independent of its set-up)
+        tabs[-1]['win'] = declared_window(a, timegrid)           # ... and the steps of its declared window [first, last + 1)
     n = len(op.l)
     mr = _maprows(op.mapping)
     for r in mr:
